@@ -231,5 +231,5 @@ Qed.
 From FB Require Import BackpressureLog.
 Example a_pull_with_a_backlog :
   let h := hist_of P0 ops_up in
-  h = firstn 9 h ++ EUpPoll (UAItem 3%N) :: skipn 10 h /\ npull (firstn 9 h) = 2 /\ nyield (firstn 9 h) = 1.
+  h = firstn 9 h ++ EUpPoll (UAItem 3%N) :: skipn 10 h /\ npull (firstn 9 h) = 2 /\ nyield (firstn 9 h) = 1 /\ nprodc (firstn 9 h) = 1.
 Proof. vm_compute. repeat split; reflexivity. Qed.
